@@ -9,7 +9,7 @@
    unreachable. *)
 From Coq Require Import List NArith ZArith QArith Qcanon Bool Lia.
 From ACB Require Import Base.Outcome Base.QcExtra Base.Fit Base.Arith Model.Tx Model.Ledger Model.Sfl
-     Model.DeltaList Spec.AvgCost Proofs.Tactics Proofs.C01Refine Proofs.C04Inv Proofs.C04Sum Proofs.C05Sites.
+     Model.DeltaList Spec.AvgCost Proofs.Tactics Proofs.C01Refine Proofs.C04Inv Proofs.C04Sum Proofs.C02Scan Proofs.C05Sites.
 Import ListNotations.
 Local Open Scope Qc_scope.
 
@@ -25,7 +25,7 @@ Definition norej {T} (m : res T) : Prop := forall r, m <> Rej r.
 
 Lemma norej_bind {T U} (m : res T) (f : T -> res U) :
   norej m -> (forall x, norej (f x)) -> norej (bind m f).
-Proof. intros Hm Hf r. destruct m; cbn [bind]; [apply Hf | apply Hm | discriminate]. Qed.
+Proof. intros Hm Hf r. destruct m as [x|r0|p]; cbn [bind]; [apply Hf | exfalso; apply (Hm r0); reflexivity | discriminate]. Qed.
 Lemma norej_ok {T} (x : T) : norej (Ok x). Proof. intros r; discriminate. Qed.
 Lemma norej_panic {T} p : norej (@Panic T p). Proof. intros r; discriminate. Qed.
 
@@ -59,6 +59,30 @@ Proof.
   apply norej_bind; [apply norej_gez | intros; nr].
 Qed.
 
+Ltac nrx0 E :=
+  exfalso;
+  first [ eapply (proj1 (norej_gez _ _)); exact E
+        | eapply (proj1 (proj2 (norej_gez _ _))); exact E
+        | eapply (proj2 (proj2 (norej_gez _ _))); exact E
+        | eapply (proj1 (norej_pos _ _)); exact E
+        | eapply (proj1 (proj2 (norej_pos _ _))); exact E
+        | eapply (proj1 (proj2 (proj2 (norej_pos _ _)))); exact E
+        | eapply (proj1 (proj2 (proj2 (proj2 (norej_pos _ _))))); exact E
+        | eapply (proj2 (proj2 (proj2 (proj2 (norej_pos _ _))))); exact E
+        | eapply (proj1 norej_unwrap); exact E
+        | eapply (proj1 (proj2 norej_unwrap)); exact E
+        | eapply (proj2 (proj2 norej_unwrap)); exact E
+        | eapply norej_local_value; exact E
+        | eapply norej_per_share; exact E
+        | unfold split_factor in E; eapply (proj1 (proj2 (norej_pos _ _))); exact E ].
+
+Ltac bnr0 H :=
+  match type of H with
+  | bind ?m _ = Rej _ =>
+      let E := fresh "E" in
+      destruct m eqn:E; cbn [bind] in H; [ | nrx0 E | discriminate H ]
+  end.
+
 Lemma bwd_scan_norej first dflt bef adj s : norej (bwd_scan exact first dflt bef adj s).
 Proof.
   revert adj s. induction bef as [|x bef IH]; intros adj s; cbn [bwd_scan]; [nr|].
@@ -74,26 +98,12 @@ Proof.
   revert adj s. induction aft as [|x aft IH]; intros adj s H; cbn [fwd_scan] in H; [discriminate|].
   destruct (Z.ltb _ _); [discriminate|].
   destruct (t_act x); try (eapply IH; exact H).
-  - destruct (gez_mul exact _ _) eqn:E1; cbn [bind] in H; try discriminate H;
-      [|exfalso; eapply norej_gez; exact E1].
-    destruct (gez_add exact _ _) eqn:E2; cbn [bind] in H; try discriminate H;
-      [|exfalso; eapply norej_gez; exact E2].
-    destruct (gez_add exact _ a) eqn:E3; cbn [bind] in H; try discriminate H;
-      [|exfalso; eapply norej_gez; exact E3].
-    destruct (gez_add exact (sc_acq s) a) eqn:E4; cbn [bind] in H; try discriminate H;
-      [|exfalso; eapply norej_gez; exact E4].
-    eapply IH; exact H.
-  - destruct (gez_mul exact _ _) eqn:E1; cbn [bind] in H; try discriminate H;
-      [|exfalso; eapply norej_gez; exact E1].
-    cbn [a_sub exact bind] in H.
+  - bnr0 H. bnr0 H. bnr0 H. bnr0 H. eapply IH; exact H.
+  - bnr0 H. cbn [a_sub exact bind] in H.
     destruct (Qcltb _ 0); [inversion H; left; reflexivity|].
     destruct (Qcltb _ 0); [inversion H; right; reflexivity|].
     eapply IH; exact H.
-  - destruct (split_factor exact _ _) eqn:E1; cbn [bind] in H; try discriminate H;
-      [|exfalso; eapply norej_pos; exact E1].
-    destruct (pos_div exact _ _) eqn:E2; cbn [bind] in H; try discriminate H;
-      [|exfalso; eapply norej_pos; exact E2].
-    eapply IH; exact H.
+  - bnr0 H. bnr0 H. eapply IH; exact H.
 Qed.
 
 Lemma sum_buyers_norej active l acc : norej (sum_buyers exact active l acc).
@@ -123,6 +133,19 @@ Qed.
 Lemma eff_cent_norej d : norej (eff_cent exact d).
 Proof. unfold eff_cent. cbn [a_sub exact bind]. destruct (Qcltb _ _); nr. Qed.
 
+Ltac nrx E :=
+  first [ nrx0 E
+        | exfalso; eapply sfl_ratio_norej; exact E
+        | exfalso; eapply gen_sfla_norej; exact E
+        | exfalso; eapply bwd_scan_norej; exact E ].
+
+Ltac bnr H :=
+  match type of H with
+  | bind ?m _ = Rej _ =>
+      let E := fresh "E" in
+      destruct m eqn:E; cbn [bind] in H; [ | nrx E | discriminate H ]
+  end.
+
 (* ---- the state invariant ---- *)
 Section Inv.
   Variable regof : N -> bool.                 (* registered flag of an affiliate id *)
@@ -137,15 +160,18 @@ Section Inv.
     Forall (fun kv => status_ok (snd kv)) m -> alookup k m = Some s ->
     s_sh s <= total_shares (abs_map m).
   Proof.
-    induction m as [|[k' s'] m IH]; cbn [alookup abs_map map total_shares fst snd]; intros HF H; [discriminate|].
+    induction m as [|[k' s'] m IH]; intros HF H; [discriminate|].
+    cbn [alookup] in H.
+    change (abs_map ((k', s') :: m)) with ((k', hold_of s') :: abs_map m). cbn [total_shares].
     apply Forall_cons_iff in HF as [[Hs' _] HF]. cbn [snd] in Hs'.
     assert (Ht : 0 <= total_shares (abs_map m)).
-    { clear -HF. induction m as [|[a b] m IH]; cbn [abs_map map total_shares fst snd]; [apply Qcle_refl|].
-      apply Forall_cons_iff in HF as [[Hb _] HF]. cbn [snd hold_of fst] in *. specialize (IH HF).
-      unfold abs_map in IH. qc_lra. }
+    { clear -HF. induction m as [|[a b] m IH]; [apply Qcle_refl|].
+      change (abs_map ((a, b) :: m)) with ((a, hold_of b) :: abs_map m). cbn [total_shares].
+      apply Forall_cons_iff in HF as [[Hb _] HF]. cbn [snd] in Hb. specialize (IH HF).
+      unfold hold_of. cbn [fst]. qc_lra. }
     unfold hold_of. cbn [fst]. destruct (N.eqb k k').
-    - inversion H; subst. unfold abs_map in Ht. qc_lra.
-    - specialize (IH HF H). unfold abs_map in *. qc_lra.
+    - inversion H; subst. qc_lra.
+    - specialize (IH HF H). qc_lra.
   Qed.
 
   Lemma last_sh_le_all st af : st_inv st -> last_sh st af <= ps_all st /\ 0 <= last_sh st af.
@@ -154,7 +180,7 @@ Section Inv.
     destruct (alookup (af_id af) (ps_map st)) as [s|] eqn:E.
     - split.
       + rewrite Hsum. eapply member_le_total; eauto.
-      + eapply (alookup_Forall status_ok) in E; [|exact HF]. apply E.
+      + eapply (alookup_Forall status_ok) in E; [|exact HF]. destruct E as (E1 & _ & _). exact E1.
     - split; [exact Hall | apply Qcle_refl].
   Qed.
 
@@ -198,7 +224,7 @@ Section Inv.
     - destruct (negb _); [discriminate|].
       destruct (bwd_scan exact _ _ bef [] s1) as [s2| r2 |] eqn:E2; cbn [bind] in H; try discriminate H.
       + destruct (Qcltb _ _); discriminate.
-      + exfalso. eapply bwd_scan_norej; exact E2.
+      + nrx E2.
     - inversion H; subst. apply fwd_scan_rej in E1 as [->| ->]; exact I.
   Qed.
 
@@ -210,7 +236,7 @@ Section Inv.
     destruct (sfl_info exact bef t sold aft st) as [i| r0 |] eqn:Ei; cbn [bind] in H; try discriminate H.
     2: { inversion H; subst. eapply sfl_info_rej; eauto. }
     destruct (sfl_ratio exact sold i) as [m| r0 |] eqn:Em; cbn [bind] in H; try discriminate H;
-      [|exfalso; eapply sfl_ratio_norej; exact Em].
+      [|nrx Em].
     match type of H with bind ?c _ = _ => destruct c as [calc| r0 |] eqn:Ec end; cbn [bind] in H; try discriminate H.
     2: { exfalso. destruct m as [rr|]; [|discriminate Ec].
          revert Ec. generalize r0. change (norej (q <- a_div exact (sr_num rr) (sr_den rr);;
@@ -224,20 +250,20 @@ Section Inv.
     - destruct force; cbn [bind a_sub exact] in H.
       + destruct (negb _); [discriminate|].
         destruct (neg_div exact sv loss) eqn:E1; cbn [bind] in H; try discriminate H;
-          [|exfalso; eapply norej_pos; exact E1].
+          [|nrx E1].
         destruct (pos_mul exact _ sold) eqn:E2; cbn [bind] in H; try discriminate H.
-        exfalso; eapply norej_pos; exact E2.
+        nrx E2.
       + destruct (Qcltb _ _); cbn [bind] in H; [inversion H; exact I|].
         destruct (negb _); [discriminate|].
         destruct (neg_div exact sv loss) eqn:E1; cbn [bind] in H; try discriminate H;
-          [|exfalso; eapply norej_pos; exact E1].
+          [|nrx E1].
         destruct (pos_mul exact _ sold) eqn:E2; cbn [bind] in H; try discriminate H.
-        exfalso; eapply norej_pos; exact E2.
+        nrx E2.
     - destruct m as [rr|]; [|discriminate H].
       destruct (neg_unwrap _ calc) eqn:E1; cbn [bind] in H; try discriminate H;
-        [|exfalso; eapply norej_unwrap; exact E1].
+        [|nrx E1].
       destruct (gen_sfla exact t _ _) eqn:E2; cbn [bind] in H; try discriminate H.
-      exfalso; eapply gen_sfla_norej; exact E2.
+      nrx E2.
   Qed.
 
   Theorem delta_for_tx_rej_listed bef t aft st r :
@@ -250,14 +276,11 @@ Section Inv.
     destruct (t_act t) as [n price com rate crate | n price com rate crate sp | amount rate
                           | n amount | post pre_ io] eqn:Ea.
     - (* Buy *)
+      destruct (delta_nonsell exact t _) as [d0|r0|p0] eqn:Ed; cbn [bind] in H; try discriminate H.
+      inversion H; subst r0; clear H. rename Ed into H.
       unfold delta_nonsell in H. rewrite Ea in H.
-      destruct (gez_add exact _ n) eqn:E1; cbn [bind] in H; try discriminate H; [|exfalso; eapply norej_gez; exact E1].
-      destruct (gez_add exact _ n) eqn:E2 in H; cbn [bind] in H; try discriminate H; [|exfalso; eapply norej_gez; exact E2].
-      destruct (s_acb _); cbn [bind] in H; [|discriminate H].
-      destruct (local_value exact n price rate) eqn:E3; cbn [bind] in H; try discriminate H; [|exfalso; eapply norej_local_value; exact E3].
-      destruct (gez_mul exact com crate) eqn:E4; cbn [bind] in H; try discriminate H; [|exfalso; eapply norej_gez; exact E4].
-      destruct (gez_add exact _ _) eqn:E5 in H; cbn [bind] in H; try discriminate H; [|exfalso; eapply norej_gez; exact E5].
-      destruct (gez_add exact _ _) eqn:E6 in H; cbn [bind] in H; try discriminate H. exfalso; eapply norej_gez; exact E6.
+      bnr H. bnr H. destruct (s_acb _); cbn [bind] in H; [|discriminate H].
+      bnr H. bnr H. bnr H. bnr H. discriminate H.
     - (* Sell *)
       destruct (sell_core exact _ n price com rate crate) as [c| r0 |] eqn:Ec; cbn [bind] in H; try discriminate H.
       + destruct (sc_gain c) as [g|]; [|discriminate H].
@@ -271,30 +294,27 @@ Section Inv.
         destruct (Qcltb_spec (last_sh st (t_af t) - n) 0) as [|Hsh]; [inversion Ec; exact I|].
         destruct (Qcltb_spec (ps_all st - n) 0) as [Hlt|_].
         { exfalso. apply Qcnot_lt_le in Hsh. qc_lra. }
-        destruct (per_share_acb exact _) as [maps| r1 |] eqn:Ep; cbn [bind] in Ec; try discriminate Ec;
-          [|exfalso; eapply norej_per_share; exact Ep].
-        destruct maps as [aps_|]; [|discriminate Ec].
-        destruct (gez_mul exact _ aps_) eqn:E1; cbn [bind] in Ec; try discriminate Ec; [|exfalso; eapply norej_gez; exact E1].
-        destruct (local_value exact n price rate) eqn:E2; cbn [bind] in Ec; try discriminate Ec; [|exfalso; eapply norej_local_value; exact E2].
-        destruct (gez_mul exact com crate) eqn:E3; cbn [bind] in Ec; try discriminate Ec; [|exfalso; eapply norej_gez; exact E3].
-        cbn [a_sub a_mul exact bind] in Ec. discriminate Ec.
+        bnr Ec. destruct a as [aps_|]; [|discriminate Ec].
+        bnr Ec. bnr Ec. bnr Ec. cbn [a_sub a_mul exact bind] in Ec. discriminate Ec.
     - (* RoC *)
+      destruct (delta_nonsell exact t _) as [d0|r0|p0] eqn:Ed; cbn [bind] in H; try discriminate H.
+      inversion H; subst r0; clear H. rename Ed into H.
       unfold delta_nonsell in H. rewrite Ea in H.
       destruct (s_acb _) as [old|] eqn:Eo; cbn [bind] in H.
       + destruct (af_reg _); cbn [bind] in H; [discriminate H|].
-        destruct (gez_mul exact amount _) eqn:E1; cbn [bind] in H; try discriminate H; [|exfalso; eapply norej_gez; exact E1].
-        destruct (gez_mul exact _ rate) eqn:E2; cbn [bind] in H; try discriminate H; [|exfalso; eapply norej_gez; exact E2].
-        cbn [a_sub exact bind] in H. destruct (Qcltb _ _); inversion H; exact I.
+        bnr H. bnr H. cbn [a_sub exact bind] in H. destruct (Qcltb _ _); inversion H; exact I.
       + destruct (negb _); cbn [bind] in H; inversion H; exact I.
     - (* SfLA *)
+      destruct (delta_nonsell exact t _) as [d0|r0|p0] eqn:Ed; cbn [bind] in H; try discriminate H.
+      inversion H; subst r0; clear H. rename Ed into H.
       unfold delta_nonsell in H. rewrite Ea in H.
       destruct (s_acb _) as [old|] eqn:Eo; cbn [bind] in H.
       + destruct (af_reg _); cbn [bind] in H; [discriminate H|].
-        cbn [a_mul exact bind] in H.
-        destruct (pos_unwrap _ _) eqn:E1; cbn [bind] in H; try discriminate H; [|exfalso; eapply norej_unwrap; exact E1].
-        destruct (gez_add exact _ _) eqn:E2; cbn [bind] in H; try discriminate H. exfalso; eapply norej_gez; exact E2.
+        cbn [a_mul exact bind] in H. bnr H. bnr H. discriminate H.
       + destruct (negb _); cbn [bind] in H; inversion H; exact I.
     - (* Split *)
+      destruct (delta_nonsell exact t _) as [d0|r0|p0] eqn:Ed; cbn [bind] in H; try discriminate H.
+      inversion H; subst r0; clear H. rename Ed into H.
       unfold delta_nonsell in H. rewrite Ea in H.
       cbn [a_mul a_div exact] in H. destruct (Qceqb pre_ 0); cbn [bind] in H; [discriminate H|].
       unfold gez_unwrap in H. rewrite next_pre_sh, next_pre_all in H.
@@ -305,3 +325,223 @@ Section Inv.
       destruct (_ && _); inversion H; exact I.
   Qed.
 End Inv.
+
+(* ---- affiliates of generated rows come from the input rows ---- *)
+Section AffPred.
+  Variable P : aff -> Prop.
+
+  Lemma add_aff_P a l : P a -> Forall P l -> Forall P (add_aff a l).
+  Proof.
+    intros Ha. induction l as [|b l IH]; cbn [add_aff]; intros HF.
+    - constructor; [assumption | constructor].
+    - destruct (aff_eqb a b); [assumption|]. apply Forall_cons_iff in HF as [Hb HF]. constructor; auto.
+  Qed.
+  Lemma ins_aff_P a l : P a -> Forall P l -> Forall P (ins_aff a l).
+  Proof.
+    intros Ha. induction l as [|b l IH]; cbn [ins_aff]; intros HF.
+    - constructor; [assumption | constructor].
+    - destruct (N.leb _ _); [constructor; assumption|]. apply Forall_cons_iff in HF as [Hb HF]. constructor; auto.
+  Qed.
+  Lemma sort_affs_P l : Forall P l -> Forall P (sort_affs l).
+  Proof.
+    unfold sort_affs. induction l as [|a l IH]; cbn [fold_right]; intros HF; [constructor|].
+    apply Forall_cons_iff in HF as [Ha HF]. apply ins_aff_P; auto.
+  Qed.
+  Definition txP (t : tx) : Prop := P (t_af t).
+
+  Lemma fwd_scan_P A last dflt aft adj s s' :
+    fwd_scan A last dflt aft adj s = Ok s' -> Forall txP aft -> Forall P (sc_buyers s) -> Forall P (sc_buyers s').
+  Proof.
+    revert adj s. induction aft as [|t aft IH]; cbn [fwd_scan]; intros adj s H HF Hb.
+    - inversion H; subst; assumption.
+    - apply Forall_cons_iff in HF as [Ht HF].
+      destruct (Z.ltb last (t_sd t)); [inversion H; subst; assumption|].
+      destruct (t_act t).
+      + bind_as H as b E1. bind_as H as eop E2. bind_as H as na E3. bind_as H as acq E4.
+        eapply IH; eauto. cbn. apply add_aff_P; assumption.
+      + bind_as H as b E1. bind_as H as eop E2. destruct (Qcltb eop 0); [discriminate|].
+        bind_as H as na E3. destruct (Qcltb na 0); [discriminate|]. eapply IH; eauto.
+      + eapply IH; eauto.
+      + eapply IH; eauto.
+      + bind_as H as f E1. bind_as H as nsa E2. eapply IH; eauto.
+  Qed.
+  Lemma bwd_scan_P A first dflt bef adj s s' :
+    bwd_scan A first dflt bef adj s = Ok s' -> Forall txP bef -> Forall P (sc_buyers s) -> Forall P (sc_buyers s').
+  Proof.
+    revert adj s. induction bef as [|t bef IH]; cbn [bwd_scan]; intros adj s H HF Hb.
+    - inversion H; subst; auto.
+    - apply Forall_cons_iff in HF as [Ht HF].
+      destruct (Z.ltb (t_sd t) first); [inversion H; subst; auto|].
+      destruct (t_act t).
+      + bind_as H as b E1. bind_as H as acq E2. eapply IH in H; eauto. cbn. apply add_aff_P; assumption.
+      + eapply IH; eauto.
+      + eapply IH; eauto.
+      + eapply IH; eauto.
+      + bind_as H as f E1. bind_as H as nsa E2. eapply IH; eauto.
+  Qed.
+  Lemma portions_P active total l ps :
+    portions active total l = Ok ps -> Forall P l -> Forall (fun p => P (fst p)) ps.
+  Proof.
+    revert ps. induction l as [|a l IH]; cbn [portions]; intros ps H HF.
+    - inversion H; constructor.
+    - apply Forall_cons_iff in HF as [Ha HF]. destruct (alookup _ _); [|discriminate].
+      bind_as H as rest Er. inversion H; subst. constructor; [exact Ha | eapply IH; eauto].
+  Qed.
+  Lemma gen_sfla_P A t loss ps l :
+    gen_sfla A t loss ps = Ok l -> Forall (fun p => P (fst p)) ps -> Forall txP l.
+  Proof.
+    revert l. induction ps as [|[af [n dn]] ps IH]; cbn [gen_sfla]; intros l H HF.
+    - inversion H; constructor.
+    - apply Forall_cons_iff in HF as [Ha HF]. cbn [fst] in Ha.
+      destruct (negb (Qceqb n 0) && negb (af_reg af)).
+      + bind_as H as q Eq. bind_as H as q1 Eq1. bind_as H as q2 Eq2. bind_as H as m Em.
+        bind_as H as amt Ea. bind_as H as rest Er. inversion H; subst l.
+        constructor; [exact Ha | eapply IH; eauto].
+      + eauto.
+  Qed.
+
+  Lemma delta_for_tx_inj_P A bef t aft st d inj :
+    delta_for_tx A bef t aft st = Ok (d, inj) -> Forall txP bef -> Forall txP aft -> Forall txP inj.
+  Proof.
+    unfold delta_for_tx. intros H Hb Ha. bind_as H as u Eu.
+    destruct (t_act t) as [n price com rate crate | n price com rate crate sp | amount rate
+                          | n amount | post pre_ io];
+      try (bind_as H as d0 Ed; inversion H; constructor).
+    bind_as H as c Ec. destruct (sc_gain c) as [g|]; [|inversion H; constructor].
+    destruct (Qcltb g 0).
+    - bind_as H as m Em. destruct m as [[info inj']|]; [|inversion H; constructor].
+      bind_as H as g' Eg. inversion H; subst. clear H.
+      unfold delta_sfl in Em. bind_as Em as i Ei. bind_as Em as mm Emm. bind_as Em as calc Ecalc.
+      destruct sp as [[sv force]|].
+      + bind_as Em as u0 Eu0. destruct (negb (Qcltb sv 0)); [discriminate|].
+        bind_as Em as q Eq. bind_as Em as nn En. inversion Em; constructor.
+      + destruct mm as [r|]; [|discriminate].
+        bind_as Em as c0 Ec0. bind_as Em as txs Et. inversion Em; subst.
+        eapply gen_sfla_P; eauto.
+        (* portions of r: affiliates are buyers of the scan *)
+        unfold sfl_info in Ei.
+        bind_as Ei as all0 E0. destruct (Qcltb all0 0); [discriminate|].
+        bind_as Ei as af0 E1. destruct (Qcltb af0 0); [discriminate|].
+        bind_as Ei as s1 E2. destruct (negb _); [inversion Ei; subst; discriminate Emm|].
+        bind_as Ei as s2 E3. destruct (Qcltb 0 (sc_acq s2)); [|inversion Ei; subst; discriminate Emm].
+        inversion Ei; subst i. unfold sfl_ratio in Emm.
+        destruct (sc_buyers s2) as [|b0 bs] eqn:Eb; [discriminate|]. rewrite <- Eb in *.
+        bind_as Emm as total Es. bind_as Emm as ps Ep. inversion Emm; subst r. cbn [sr_portions].
+        destruct (Qcltb 0 total); [|inversion Ep; constructor].
+        eapply portions_P; eauto. apply sort_affs_P.
+        eapply bwd_scan_P; eauto. eapply fwd_scan_P; eauto. constructor.
+    - destruct sp; [discriminate|]. inversion H; constructor.
+  Qed.
+End AffPred.
+
+Lemma In_firstn {T} (x : T) n l : In x (firstn n l) -> In x l.
+Proof.
+  revert l. induction n as [|n IH]; intros l H; [contradiction|].
+  destruct l as [|y l]; [contradiction|]. cbn [firstn] in H. destruct H as [->|H]; [left; reflexivity | right; apply IH; exact H].
+Qed.
+
+(* ---- whole runs ---- *)
+Section Runs.
+  Variable regof : N -> bool.
+  Hypothesis regof_default : regof default_id = false.
+
+  Lemma set_latest_inv st af v st' :
+    set_latest exact st af v = Ok st' -> st_inv regof st -> status_ok v -> af_ok regof af -> st_inv regof st'.
+  Proof.
+    intros H (Hok & Hsum & Hreg & Hl) Hv Haf.
+    pose proof (set_latest_ok exact _ _ _ _ H Hok Hv) as Hok'.
+    pose proof (set_latest_sum _ _ _ _ H Hsum) as (Hm & _ & Hsum').
+    unfold set_latest in H. cbn [a_add a_sub exact bind] in H.
+    destruct (Bool.eqb (af_reg af) (is_none (s_acb v))) eqn:Eb; cbn [negb] in H; [|discriminate].
+    destruct (negb _); [discriminate|]. inversion H; subst st'; clear H.
+    split; [exact Hok'|]. split; [exact Hsum'|]. split.
+    - intros k s Hk. cbn [ps_map] in Hk. rewrite alookup_aupdate in Hk.
+      destruct (N.eqb k (af_id af)) eqn:E.
+      + apply N.eqb_eq in E. subst k. inversion Hk; subst s.
+        apply Bool.eqb_prop in Eb. rewrite <- Eb. exact Haf.
+      + apply Hreg. exact Hk.
+    - unfold latest_post_status, latest_for. cbn [ps_map ps_latest ps_all].
+      rewrite alookup_aupdate, N.eqb_refl. reflexivity.
+  Qed.
+
+  Definition row_ok' (t : tx) : Prop := af_ok regof (t_af t).
+
+  Lemma run_injected_inv bef st inj aft ds bef' st' o :
+    run_injected exact bef st inj aft = (ds, bef', st', o) ->
+    st_inv regof st -> Forall row_ok' inj ->
+    st_inv regof st' /\ (forall r, o = Some (SRej r) -> listed r) /\ bef' = rev (firstn (length ds) inj) ++ bef.
+  Proof.
+    revert bef st ds bef' st' o. induction inj as [|t inj IH]; intros bef st ds bef' st' o H Hinv HF;
+      cbn [run_injected] in H.
+    - inversion H; subst. split; [assumption|]. split; [intros r Hr; discriminate | reflexivity].
+    - apply Forall_cons_iff in HF as [Ht HF].
+      destruct (delta_for_tx exact bef t (inj ++ aft) st) as [[d i]| r0 |] eqn:Ed.
+      + pose proof (delta_for_tx_ok exact _ _ _ _ _ _ Ed (proj1 Hinv)) as [Htx (Hrow & _)].
+        destruct (set_latest exact st (t_af t) (d_post d)) as [st1| r1 |] eqn:Es.
+        * destruct (run_injected exact (t :: bef) st1 inj aft) as [[[ds1 b1] s1] o1] eqn:Er.
+          inversion H; subst; clear H.
+          assert (Hinv1 : st_inv regof st1) by (eapply set_latest_inv; eauto).
+          destruct (IH _ _ _ _ _ _ Er Hinv1 HF) as (I1 & I2 & I3).
+          split; [assumption|]. split; [assumption|]. cbn [length firstn rev]. rewrite I3, <- app_assoc. reflexivity.
+        * exfalso. unfold set_latest in Es. cbn [a_add a_sub exact bind] in Es.
+          destruct (negb _); [discriminate|]. destruct (negb _); discriminate.
+        * inversion H; subst. split; [assumption|]. split; [intros r Hr; discriminate | reflexivity].
+      + inversion H; subst. split; [assumption|]. split; [|reflexivity].
+        intros r Hr. inversion Hr; subst. eapply delta_for_tx_rej_listed; eauto.
+      + inversion H; subst. split; [assumption|]. split; [intros r Hr; discriminate | reflexivity].
+  Qed.
+
+  Lemma run_loop_rej bef st aft ds r :
+    run_loop exact bef st aft = (ds, Some (SRej r)) ->
+    st_inv regof st -> Forall row_ok' aft -> Forall row_ok' bef -> listed r.
+  Proof.
+    revert bef st ds. induction aft as [|t aft IH]; intros bef st ds H Hinv HF Hb; cbn [run_loop] in H.
+    - discriminate.
+    - apply Forall_cons_iff in HF as [Ht HF].
+      destruct (delta_for_tx exact bef t aft st) as [[d inj]| r0 |] eqn:Ed.
+      + pose proof (delta_for_tx_ok exact _ _ _ _ _ _ Ed (proj1 Hinv)) as [Htx (Hrow & _)].
+        pose proof (delta_for_tx_inj_P (af_ok regof) exact _ _ _ _ _ _ Ed Hb HF) as Hinj.
+        destruct (set_latest exact st (t_af t) (d_post d)) as [st1| r1 |] eqn:Es.
+        * assert (Hinv1 : st_inv regof st1) by (eapply set_latest_inv; eauto).
+          destruct (run_injected exact (t :: bef) st1 inj aft) as [[[dsi b1] st2] o1] eqn:Er.
+          destruct (run_injected_inv _ _ _ _ _ _ _ _ Er Hinv1 Hinj) as (I1 & I2 & I3).
+          destruct o1 as [s1|].
+          -- inversion H; subst. apply I2. reflexivity.
+          -- destruct (run_loop exact b1 st2 aft) as [ds2 o2] eqn:El. inversion H; subst.
+             eapply IH; eauto. apply Forall_app. split.
+             ++ apply Forall_rev. apply Forall_forall. intros x Hx.
+                rewrite Forall_forall in Hinj. apply Hinj. eapply In_firstn. exact Hx.
+             ++ constructor; assumption.
+        * exfalso. unfold set_latest in Es. cbn [a_add a_sub exact bind] in Es.
+          destruct (negb _); [discriminate|]. destruct (negb _); discriminate.
+        * discriminate.
+      + inversion H; subst. eapply delta_for_tx_rej_listed; eauto.
+      + discriminate.
+  Qed.
+
+  Definition init_ok' (init : option status) : Prop :=
+    forall i, init = Some i -> status_ok i /\ s_acb i <> None.
+
+  Theorem run_rej_listed init txs ds r :
+    run exact init txs = (ds, Some (SRej r)) ->
+    init_ok' init -> Forall row_ok' txs -> listed r.
+  Proof.
+    unfold run. destruct txs as [|t txs]; intros H Hi HF; [discriminate|].
+    destruct (init_state exact init) as [st| r0 |] eqn:Ei.
+    - assert (Hinv : st_inv regof st).
+      { unfold init_state in Ei. destruct init as [i|].
+        - destruct (negb _); [discriminate|]. destruct (Hi i eq_refl) as [Hs Ha].
+          eapply set_latest_inv; [exact Ei| |exact Hs|].
+          + split; [split; cbn; [constructor | apply Qcle_refl]|].
+            split; [reflexivity|]. split; [intros k s Hk; discriminate | reflexivity].
+          + unfold af_ok. cbn. symmetry. exact regof_default.
+        - inversion Ei; subst.
+          split; [split; cbn; [constructor | apply Qcle_refl]|].
+          split; [reflexivity|]. split; [intros k s Hk; discriminate | reflexivity]. }
+      eapply (run_loop_rej [] st (t :: txs) ds r H Hinv HF). constructor.
+    - exfalso. unfold init_state in Ei. destruct init as [i|]; [|discriminate].
+      destruct (negb _); [discriminate|]. unfold set_latest in Ei. cbn [a_add a_sub exact bind] in Ei.
+      destruct (negb _); [discriminate|]. destruct (negb _); discriminate.
+    - discriminate.
+  Qed.
+End Runs.
